@@ -1343,9 +1343,8 @@ def _model_to_sbml(
             gid = f_replace[F_GENE_REV](gid)
         gp.setId(gid)
         gname = cobra_gene.name
-        if gname is None or len(gname) == 0:
-            gname = gid
-        gp.setName(gname)
+        if gname:
+            gp.setName(gname)
         gp.setLabel(gid)
 
         _sbase_annotations(gp, cobra_gene.annotation)
